@@ -254,6 +254,19 @@ def _materialise(kind, base):
     if kind == "listpairs":
         vals = [[v // 2, -v] for v in base]
         return tuple(vals), vals
+    # one-shot iterables of UNHASHABLE elements (the element type and the container type are independent)
+    if kind == "lists_gen":
+        vals = [[v] for v in base]
+        return (x for x in vals), vals
+    if kind == "lists_iter":
+        vals = [[v] for v in base]
+        return iter(list(vals)), vals
+    if kind == "lists_map":
+        vals = [[v] for v in base]
+        return map(list, [(v,) for v in base]), vals
+    if kind == "lists_reversed":
+        vals = [[v] for v in base]
+        return reversed(list(reversed(vals))), vals
     raise KeyError(kind)
 
 
@@ -643,7 +656,13 @@ def run(ctx):
             rule=f"all (r, n) with n <= {lmax}, 0 <= r < n! (n = 0: r = 0 only)")
     ctx.run("C09.rank", D.perms_upto(nmax), chunk=1500, rule=f"all permutations of length <= {nmax}; oracle counts smaller permutations")
     longer = [D.random_perm(rng, n) for n in (9, 10, 11, 12, 15, 20) for _ in range(30 if quick else 200)]
-    ctx.run("C09.rank", longer, chunk=40, rule="seeded permutations of length 9-20 (big ranks, unrank(rank) round trip)")
+    # ranks beyond 2**53 (length >= 19) and beyond the exactness of doubles for every intermediate factorial
+    # (length >= 23): identity, reverse identity and seeded permutations of every length 21..32 (added after
+    # seeded change C09_d - float division in rank, visible from length 24 - was missed)
+    Perm_ = _P()
+    for n in range(21, 33 if quick else 41):
+        longer += [Perm_(range(n)), Perm_(range(n - 1, -1, -1))] + [D.random_perm(rng, n) for _ in range(4 if quick else 20)]
+    ctx.run("C09.rank", longer, chunk=40, rule="seeded permutations of length 9-20 and identity / reverse / seeded ones of every length 21-32 (40 thorough): big ranks, unrank(rank) round trip")
     small = D.perms_upto(4)
     pairs = [(p, q) for p in small for q in small]
     pool = D.perms_upto(6)
@@ -675,10 +694,11 @@ def run(ctx):
                  "bools, Fractions, str, tuples of str, tuples, big ints, generators, iterators), seeded order, each called twice "
                  "through the three aliases; seeded sequences of length 6-12; ranges; non-trivial = has a tie")
     ctx.add_sample("C09.standardise", ("str", (2, 0, 0, 1, 0)))
-    unh = [(kind, t) for t in seqs if 1 <= len(t) <= 3 for kind in ("lists", "listpairs")]
+    unh = [(kind, t) for t in seqs if 1 <= len(t) <= 3 for kind in ("lists", "listpairs", "lists_gen", "lists_iter", "lists_map", "lists_reversed")]
     unh += [("tuples", t) for t in seqs if len(t) <= 2]  # hashable control cases
     ctx.run("C09.standardise.unhashable", unh, chunk=100,
-            rule="sequences of length 1-3 whose elements are lists (comparable, unhashable) + hashable controls")
+            rule="sequences of length 1-3 whose elements are lists (comparable, unhashable), given as list / tuple / generator / iterator / map / reversed "
+                 "(one-shot containers of unhashable values: added after seeded change C09_c was missed) + hashable controls")
     hist = []
     for _ in range(60 if quick else 600):
         steps = []
